@@ -116,7 +116,9 @@ impl FrameReader for UdpFrameReader {
         let mut buf = Frame::new();
         tokio::select! {
             Some(f) = self.extra_frame.recv() => Ok(Some(f)),
-            _ = buf.recv_from(&self.socket) => {
+            ret = buf.recv_from(&self.socket) => {
+                // a receive error (e.g. ICMP port unreachable) is an error, not an empty datagram
+                ret?;
                 buf.addr = Some(self.target.clone());
                 Ok(Some(buf))
             }
